@@ -1,11 +1,11 @@
 #!/bin/bash
-# usage: run_seeded.sh <patch.diff> <property> [tier]  -- applies a seeded change to /repo, runs the check, reverts
-set -u
+# usage: run_seeded.sh <patch.diff> <property> [tier]  -- applies a change to a scratch worktree of /repo and runs the check there
 patch="$1"; prop="$2"; tier="${3:-quick}"
-cd /repo || exit 3
-if [ -n "$(git status --porcelain --untracked-files=no)" ]; then echo "repo dirty"; exit 3; fi
-git apply "$patch" || { echo "patch does not apply"; exit 3; }
-cd /verif && ./run_check.sh "$prop" "$tier" > /tmp/seeded_out.txt 2>&1; rc=$?
-egrep "VIOLATION|counterexample|NOTE|INCONCLUSIVE|^$prop " /tmp/seeded_out.txt | cut -c1-260 | head -${LINES_MAX:-6}
-echo "exit=$rc"
-git -C /repo checkout -- .
+export GOFLAGS=-mod=mod GOPROXY=off GOSUMDB=off GOTOOLCHAIN=local
+wt=/tmp/repo_rs_$$
+git -C /repo worktree add -q $wt HEAD || exit 3
+trap 'git -C /repo worktree remove --force '$wt' 2>/dev/null; rm -rf /tmp/rs_out_$$' EXIT
+git -C $wt apply "$patch" || { echo "patch does not apply"; exit 3; }
+SYMGO_REPO=$wt SYMGO_OUT=/tmp/rs_out_$$ /verif/bin/symgo check "$prop" --tier "$tier" > /tmp/rs_$$.txt 2>&1; rc=$?
+egrep "VIOLATION|counterexample|NOTE|INCONCLUSIVE|^$prop " /tmp/rs_$$.txt | sed "s#$wt#/repo#g" | cut -c1-260 | head -${LINES_MAX:-6}
+echo "exit=$rc"; rm -f /tmp/rs_$$.txt
